@@ -95,13 +95,14 @@ func findChroot(c *Check) *chrootInfo {
 					callsJoin = true
 				}
 			})
-			_ = callsJoin
 			oneString := sig.Params().Len() == 1 && isStringType(sig.Params().At(0).Type())
 			if callsRel && oneString && sig.Results().Len() == 1 && isErrorType(sig.Results().At(0).Type()) {
 				ci.allow = m
 			}
 			// join by role: (string) -> (string, error), unexported helper
-			if oneString && sig.Results().Len() == 2 && isStringType(sig.Results().At(0).Type()) && isErrorType(sig.Results().At(1).Type()) {
+			// (a helper with the same signature that calls the join and the range test
+			// is not the join: the join is the one that builds the path itself)
+			if callsJoin && oneString && sig.Results().Len() == 2 && isStringType(sig.Results().At(0).Type()) && isErrorType(sig.Results().At(1).Type()) {
 				ci.join = m
 			}
 		}
@@ -164,6 +165,16 @@ func (ci *chrootInfo) checkedAt(v ssa.Value, site ssa.Instruction, depth int) (b
 	switch x := v.(type) {
 	case *ssa.Extract:
 		call, ok := x.Tuple.(*ssa.Call)
+		if ok && x.Index == 0 && staticCallee(call) != ci.join {
+			// a helper that joins and range-tests: every return of it that carries a
+			// nil error returns a checked path; the caller must have seen that nil error
+			if h := staticCallee(call); h != nil && ci.returnsCheckedPath(h, depth+1) {
+				if nilOutcomeDominatesTuple(call, site) {
+					return true, ""
+				}
+				return false, "the path comes from " + fnName(h) + " but is used without a dominating test of its error"
+			}
+		}
 		if !ok || x.Index != 0 || staticCallee(call) != ci.join {
 			return false, "value is not the result of the join function " + fnName(ci.join)
 		}
@@ -988,4 +999,65 @@ func c18LocalImportMark(c *Check) {
 	if n == 0 {
 		c.Undecidedf("LOCAL-IMPORT-MARK", "pkg/parse", "-", "no remote-looking test on import paths found in pkg/parse: unresolved anchor")
 	}
+}
+
+// returnsCheckedPath: h returns (string, error) and every return whose error is
+// the nil constant returns a path that is joined and range-tested at that return.
+func (ci *chrootInfo) returnsCheckedPath(h *ssa.Function, depth int) bool {
+	if h == nil || len(h.Blocks) == 0 || depth > 3 || h.Signature.Results().Len() != 2 {
+		return false
+	}
+	if !isStringType(h.Signature.Results().At(0).Type()) || !isErrorType(h.Signature.Results().At(1).Type()) {
+		return false
+	}
+	n := 0
+	for _, b := range h.Blocks {
+		ret, ok := b.Instrs[len(b.Instrs)-1].(*ssa.Return)
+		if !ok {
+			continue
+		}
+		vals, _ := returnValues(ret)
+		if !isNilConst(vals[1]) {
+			continue // error return: the caller must not use the path
+		}
+		n++
+		if ok2, _ := ci.checkedAt(vals[0], ret, depth); !ok2 {
+			return false
+		}
+	}
+	return n > 0
+}
+
+// nilOutcomeDominatesTuple: like nilOutcomeDominates for a call with several
+// results: the error is the last extract.
+func nilOutcomeDominatesTuple(call *ssa.Call, site ssa.Instruction) bool {
+	if call.Referrers() == nil {
+		return false
+	}
+	ei := errorResultIndex(call.Call.Signature())
+	for _, ref := range *call.Referrers() {
+		ex, ok := ref.(*ssa.Extract)
+		if !ok || ex.Index != ei || ex.Referrers() == nil {
+			continue
+		}
+		for _, r := range *ex.Referrers() {
+			bin, ok := r.(*ssa.BinOp)
+			if !ok || (bin.Op != token.NEQ && bin.Op != token.EQL) || !(isNilConst(bin.X) || isNilConst(bin.Y)) {
+				continue
+			}
+			for _, br := range branchesOn(bin) {
+				nilS, errS := br.FalseSucc, br.TrueSucc
+				if bin.Op == token.EQL {
+					nilS, errS = br.TrueSucc, br.FalseSucc
+				}
+				if (nilS == site.Block() || nilS.Dominates(site.Block())) && len(nilS.Preds) == 1 {
+					return true
+				}
+				if br.If.Block().Dominates(site.Block()) && br.If.Block() != site.Block() && !blockReaches(errS, site.Block(), nil) {
+					return true
+				}
+			}
+		}
+	}
+	return false
 }
